@@ -17,7 +17,9 @@ EXPLANATION = ("CL and CWL range over the (CL,CWL) pairs common.get_default_cl_c
                "valid range.  The real init generators run on these values; every resulting mode-register value is a case list whose "
                "conditions are decided by z3 together with the module/clock constraints.  Decoders typed from the JEDEC mode register "
                "definitions (not from the tables in init.py) give BL, CL, CWL and write recovery back; table misses (KeyError) and "
-               "failed asserts are recorded as reachable-or-not side conditions.")
+               "failed asserts are recorded as reachable-or-not side conditions.  Independently of the module library (tWTR free over "
+               "1..16, DDR3 1:2/1:4, DDR4 1:4/1:2) the JEDEC-decoded write recovery must be monotone in the controller's tWTR over the "
+               "whole encoding table (two symbolic runs, replayed concretely).")
 TOL = Fraction(1, 10**4)      # robust violations only: a 1e-4 relative shortfall, far above double rounding
 DRAM_MIN_MHZ = {"DDR2": 125, "DDR3": 300, "DDR4": 625}   # JEDEC minimum DLL-on clock (tCK max 8 / 3.3 / 1.6 ns)
 
